@@ -37,3 +37,10 @@ Lemma tie_value_readers : f_value_readers =
    ("newRaw", "ReadUint32,ReadN"); ("newString", "ReadString"); ("newUint", "ReadUint32"); ("newUint16", "ReadUint16");
    ("newUint8", "ReadUint8"); ("newUlong", "ReadUint64"); ("newVoid", "")].
 Proof. reflexivity. Qed.
+
+(* the source files the models used by this property transliterate have not been rewritten since the models
+   were read against them (per-function digests, see WireSrcPins.v) *)
+From QV Require Import WireSrcPins.
+Lemma tie_src_reader_go : f_src_reader_go = pin_src_reader_go. Proof. reflexivity. Qed.
+Lemma tie_src_value_go : f_src_value_go = pin_src_value_go. Proof. reflexivity. Qed.
+Lemma tie_src_basic_go : f_src_basic_go = pin_src_basic_go. Proof. reflexivity. Qed.
